@@ -1,7 +1,8 @@
 (* Proofs about Model/Annot.v (C16): the matcher on every well-formed spelling of an annotation
-   line (round trip), soundness of the matcher w.r.t. the grammar and w.r.t. the independent
-   recogniser used by the oracle, the F7 witness, and the holder: error exactly on malformed
-   JSON5, attribute order, description rule. *)
+   line (round trip, with the exact side condition), soundness and completeness of the matcher
+   w.r.t. the grammar, completeness of the independent recogniser used by the oracle, the F7
+   witness, the holder (error exactly on malformed JSON5, attribute order, description rule),
+   and prop_C16 on the model's own output. *)
 From Gleece Require Import Base.Bytes Model.Annot.
 From Coq Require Import String.
 Open Scope list_scope.
@@ -371,9 +372,11 @@ Proof.
   intros l H. destruct (exists_last H) as (l' & c & E). eauto.
 Qed.
 
-Lemma flatten_end : forall tr, wf_tree tr -> wf_end tr -> last_ws_len (rev (flatten tr)) = 0.
+Lemma flatten_end_weak : forall tr,
+  wf_name (t_name tr) = true -> wf_tail_b (t_tail tr) = true -> wf_end tr ->
+  last_ws_len (rev (flatten tr)) = 0.
 Proof.
-  intros [n v jp tl] (Hn & Hv & Htl & Hj) He. unfold wf_end in He.
+  intros [n v jp tl] Hn Htl He. unfold wf_end in He.
   cbn [t_name t_value t_json t_tail] in *. unfold flatten. cbn [t_name t_value t_json t_tail].
   destruct tl as [|w d].
   - cbn [flat_tail]. rewrite app_nil_r.
@@ -400,6 +403,9 @@ Proof.
     rewrite last_ws_len_ctx; [exact He| |exact Hb].
     destruct d; [discriminate|congruence].
 Qed.
+
+Lemma flatten_end : forall tr, wf_tree tr -> wf_end tr -> last_ws_len (rev (flatten tr)) = 0.
+Proof. intros tr (Hn & _ & Htl & _) He. apply flatten_end_weak; assumption. Qed.
 
 Lemma wf_tree_ok : forall tr, wf_tree tr -> tree_ok tr.
 Proof.
@@ -965,3 +971,468 @@ Lemma demo_oracle :
   prop_C16 demo_items {| ob_err := false; ob_attrs := []; ob_frees := [s "lead"; s "@Name("]; ob_description := s "lead" |} = false /\
   prop_C16 demo_items {| ob_err := true; ob_attrs := []; ob_frees := []; ob_description := [] |} = false.
 Proof. repeat split; vm_compute; reflexivity. Qed.
+(* ---------------------------------------------------------------- the side condition is exact:
+   with a false close in the description the greedy group does over-capture *)
+
+Lemma last_close_unfold : forall c r',
+  last_close (c :: r') =
+  if is_dot c then
+    match last_close r' with
+    | Some (inner, tl) => Some (c :: inner, tl)
+    | None =>
+        if beqb c c_rbrace then
+          match r' with
+          | c2 :: r8 =>
+              if beqb c2 c_rpar then
+                match tail r8 with Some tl => Some ([], tl) | None => None end
+              else None
+          | [] => None
+          end
+        else None
+    end
+  else None.
+Proof. reflexivity. Qed.
+
+Lemma last_close_prefix : forall pre r i t,
+  no_lf pre = true -> last_close r = Some (i, t) -> last_close (pre ++ r) = Some (pre ++ i, t).
+Proof.
+  induction pre as [|c pre IH]; intros r i t Hlf H; [exact H|].
+  unfold no_lf in Hlf. cbn [forallb] in Hlf. apply andb_true_iff in Hlf as [Hc Hlf].
+  cbn [app]. rewrite last_close_unfold, Hc, (IH r i t Hlf H). reflexivity.
+Qed.
+
+Lemma forallb_last : forall (p : byte -> bool) l x, l <> [] -> forallb p l = true -> p (last l x) = true.
+Proof.
+  intros p l x Hne H. destruct (last_split l Hne) as (l' & c & ->).
+  rewrite last_last. rewrite forallb_app in H. apply andb_true_iff in H as [_ H].
+  cbn [forallb] in H. rewrite andb_true_r in H. exact H.
+Qed.
+
+Lemma false_close_found : forall d,
+  false_close d = true -> no_lf d = true -> re_ws (last d x00) = false ->
+  exists i t, last_close d = Some (i, t).
+Proof.
+  induction d as [|c t IH]; intros Hf Hlf Hl; [discriminate|].
+  cbn [false_close] in Hf.
+  unfold no_lf in Hlf. cbn [forallb] in Hlf. apply andb_true_iff in Hlf as [Hc Hlft].
+  destruct (false_close t) eqn:Ft.
+  - destruct t as [|c2 t']; [discriminate Ft|].
+    destruct (IH eq_refl Hlft Hl) as (i & tl & E).
+    exists (c :: i), tl. rewrite last_close_unfold, Hc, E. reflexivity.
+  - rewrite orb_false_r in Hf. apply andb_true_iff in Hf as [Ec Hf]. apply beqb_spec in Ec. subst c.
+    destruct t as [|c2 r]; [discriminate|]. apply andb_true_iff in Hf as [E2 Hf].
+    apply beqb_spec in E2. subst c2.
+    rewrite last_close_unfold. change (is_dot c_rbrace) with true. cbv iota.
+    destruct (last_close (c_rpar :: r)) as [[i tl]|] eqn:E; [eexists _, _; reflexivity|].
+    change (beqb c_rbrace c_rbrace) with true. change (beqb c_rpar c_rpar) with true. cbv iota.
+    assert (Ht : exists tl, tail r = Some tl).
+    { destruct r as [|c3 r']; [exists TailNone; reflexivity|].
+      unfold tail. destruct (span re_ws (c3 :: r')) as [w rest] eqn:Es.
+      destruct (span_sound _ _ _ _ Es) as (Hr & Hw & _).
+      destruct w as [|b w].
+      { cbn [span] in Es. rewrite Hf in Es. destruct (span re_ws r'); discriminate. }
+      destruct rest as [|x rest].
+      - exfalso. rewrite app_nil_r in Hr.
+        assert (Hlast : re_ws (last (c3 :: r') x00) = true).
+        { rewrite Hr. apply forallb_last; [discriminate|exact Hw]. }
+        change (last (c_rbrace :: c_rpar :: c3 :: r') x00) with (last (c3 :: r') x00) in Hl.
+        congruence.
+      - assert (Hn : no_lf (x :: rest) = true).
+        { change (forallb is_dot (c_rpar :: c3 :: r')) with (is_dot c_rpar && forallb is_dot (c3 :: r')) in Hlft.
+          apply andb_true_iff in Hlft as [_ Hlft].
+          rewrite Hr in Hlft. rewrite forallb_app in Hlft. apply andb_true_iff in Hlft as [_ Hlft].
+          exact Hlft. }
+        rewrite Hn. eexists; reflexivity. }
+    destruct Ht as [tl Ht]. rewrite Ht. eexists _, _; reflexivity.
+Qed.
+
+Lemma match_text_json_general : forall n v w1 w2 r7 inner' tl',
+  wf_name n = true -> forallb is_valc v = true -> v <> [] ->
+  forallb re_ws w1 = true -> match w1 with c :: _ => is_valc c = false | [] => True end ->
+  forallb re_ws w2 = true ->
+  last_close r7 = Some (inner', tl') ->
+  match_text (s "// @" ++ n ++ c_lpar :: v ++ w1 ++ c_comma :: w2 ++ c_lbrace :: r7)
+  = Some {| t_name := n; t_value := v; t_json := Some (w1, w2, c_lbrace :: inner' ++ [c_rbrace]); t_tail := tl' |}.
+Proof.
+  intros n v w1 w2 r7 inner' tl' Hn Hv Hvne H1 H1h H2 Hl.
+  unfold wf_name in Hn. apply andb_true_iff in Hn as [Hne Hn].
+  unfold match_text.
+  change (strip_prefix (s "// @") (s "// @" ++ n ++ c_lpar :: v ++ w1 ++ c_comma :: w2 ++ c_lbrace :: r7))
+    with (Some (n ++ c_lpar :: v ++ w1 ++ c_comma :: w2 ++ c_lbrace :: r7)).
+  cbv iota.
+  rewrite (span_stop is_word n _ Hn) by reflexivity.
+  destruct n as [|n0 n]; [discriminate|].
+  change (beqb c_lpar c_lpar) with true. cbv iota.
+  assert (Hstop : match (w1 ++ c_comma :: w2 ++ c_lbrace :: r7) with
+                  | [] => True | c :: _ => is_valc c = false end).
+  { destruct w1 as [|c w1]; [reflexivity|exact H1h]. }
+  rewrite (span_stop is_valc v _ Hv Hstop).
+  destruct v as [|v0 v]; [contradiction|].
+  unfold try_json.
+  rewrite (span_stop re_ws w1 _ H1) by reflexivity.
+  change (beqb c_comma c_comma) with true. cbv iota.
+  rewrite (span_stop re_ws w2 _ H2) by reflexivity.
+  change (beqb c_lbrace c_lbrace) with true. cbv iota.
+  rewrite Hl. reflexivity.
+Qed.
+
+Lemma shape_tree_ok : forall tr, shape_tree tr -> tree_ok tr.
+Proof.
+  intros tr (_ & _ & _ & Hj). unfold tree_ok. destruct (t_json tr) as [[[w1 w2] jt]|]; [|exact I].
+  destruct Hj as [H _]. exact H.
+Qed.
+
+(* what parse_line returns is the flattening's parts, for ANY line it accepts *)
+Lemma parse_line_of_match : forall raw tr,
+  trim_space raw = raw -> match_text raw = Some tr -> parse_line raw = Some (pattr_of tr).
+Proof.
+  intros raw tr Ht Hm. unfold parse_line. rewrite Ht, Hm.
+  destruct (match_sound raw tr Hm) as (Hr & Hs).
+  rewrite Hr at 1. rewrite (groups_flatten tr (shape_tree_ok tr Hs)). reflexivity.
+Qed.
+
+Theorem roundtrip_needs_condition : forall n v jt d,
+  wf_name n = true -> wf_value v = true -> v <> [] -> wf_json jt = true -> wf_descr d = true ->
+  no_false_close d = false ->
+  parse_line (render n v (Some jt) d) <> Attr n v (Some jt) d.
+Proof.
+  intros n v jt d Hn Hv Hvne Hj Hd Hfc.
+  unfold no_false_close in Hfc. apply negb_false_iff in Hfc.
+  destruct d as [|d0 d]; [discriminate|].
+  cbn [wf_descr] in Hd. rewrite !andb_true_iff in Hd. destruct Hd as [[Hd1 Hd2] Hd3].
+  apply negb_true_iff in Hd1. apply Nat.eqb_eq in Hd3.
+  destruct (wf_json_split jt Hj) as (inner & -> & Hlf).
+  (* the description does not end in \s *)
+  assert (Hlast : re_ws (last (d0 :: d) x00) = false).
+  { destruct (last_split (d0 :: d)) as (d' & b & E); [discriminate|]. rewrite E, last_last.
+    rewrite E, rev_app_distr in Hd3. cbn [rev app] in Hd3. unfold last_ws_len in Hd3.
+    destruct (ascii_ws b) eqn:Eb; [discriminate|].
+    unfold ascii_ws in Eb. apply orb_false_iff in Eb as [Eb _]. exact Eb. }
+  destruct (false_close_found (d0 :: d) Hfc Hd2 Hlast) as (i & tl & Hlc).
+  set (inner' := (inner ++ [c_rbrace; c_rpar; c_sp]) ++ i).
+  assert (Hl7 : last_close ((inner ++ [c_rbrace; c_rpar; c_sp]) ++ d0 :: d) = Some (inner', tl)).
+  { apply last_close_prefix; [|exact Hlc]. unfold no_lf in *. rewrite forallb_app, Hlf. reflexivity. }
+  assert (Hraw : render n v (Some (c_lbrace :: inner ++ [c_rbrace])) (d0 :: d)
+                 = s "// @" ++ n ++ c_lpar :: v ++ [] ++ c_comma :: [c_sp] ++ c_lbrace
+                   :: (inner ++ [c_rbrace; c_rpar; c_sp]) ++ d0 :: d).
+  { unfold render. destruct v as [|v0 v]; [contradiction|]. norm_app. reflexivity. }
+  assert (Hm := match_text_json_general n v [] [c_sp] _ inner' tl Hn Hv Hvne eq_refl I eq_refl Hl7).
+  rewrite <- Hraw in Hm.
+  assert (Htrim : trim_space (render n v (Some (c_lbrace :: inner ++ [c_rbrace])) (d0 :: d))
+                  = render n v (Some (c_lbrace :: inner ++ [c_rbrace])) (d0 :: d)).
+  { rewrite render_flatten. unfold trim_space. rewrite ltrim_flatten. apply rtrim_id.
+    apply flatten_end_weak.
+    - exact Hn.
+    - cbn [tree_of t_tail wf_tail_b nonempty is_nil forallb]. rewrite Hd1, Hd2. reflexivity.
+    - exact Hd3. }
+  pose proof (parse_line_of_match _ _ Htrim Hm) as Hp.
+  intros E0. pose proof (eq_trans (eq_sym Hp) E0) as E. clear E0 Hp.
+  unfold Attr, pattr_of in E. cbn [t_name t_value t_json t_tail] in E.
+  inversion E as [[Ej Ed]]. clear E Ed.
+  apply (f_equal (@List.length byte)) in Ej. unfold inner' in Ej.
+  rewrite !app_length in Ej. cbn [List.length] in Ej. lia.
+Qed.
+
+(* both directions: the side condition of the round trip is exact *)
+Theorem roundtrip_iff : forall n v jt d,
+  wf_name n = true -> wf_value v = true -> v <> [] -> wf_json jt = true -> wf_descr d = true ->
+  (parse_line (render n v (Some jt) d) = Attr n v (Some jt) d <-> no_false_close d = true).
+Proof.
+  intros n v jt d Hn Hv Hvne Hj Hd. split.
+  - intros H. destruct (no_false_close d) eqn:E; [reflexivity|].
+    exfalso. exact (roundtrip_needs_condition n v jt d Hn Hv Hvne Hj Hd E H).
+  - intros H. apply roundtrip. repeat split; assumption.
+Qed.
+(* ---------------------------------------------------------------- C16 on the model:
+   for every block of canonically spelled, well-formed lines outside the F7 class, the oracle
+   prop_C16 accepts what the model returns *)
+
+Definition item_canon (tbl : list (str * option str)) (it : item) : Prop :=
+  match it with
+  | IAnnot raw n v j d =>
+      raw = render n v (option_map fst j) d /\ roundtrip_pre n v (option_map fst j) d /\
+      match j with
+      | Some (jt, r) => table_json5 tbl jt = r /\ r <> Some json_null
+      | None => True
+      end
+  | IFree raw => shaped_b (trim_space raw) = false
+  end.
+
+Definition nul (p : str) : bool := str_eqb p json_null.
+
+Definition expected_cls (it : item) : line_res str :=
+  match it with
+  | IFree raw => LFree (free_value raw)
+  | IAnnot _ n v None d => LAttr {| a_name := n; a_value := v; a_props := None; a_descr := d |}
+  | IAnnot _ n v (Some (_, Some p)) d => LAttr {| a_name := n; a_value := v; a_props := Some p; a_descr := d |}
+  | IAnnot _ _ _ (Some (_, None)) _ => LError
+  end.
+
+Lemma classify_item : forall tbl it, item_canon tbl it ->
+  classify str (table_json5 tbl) nul (item_raw it) = expected_cls it.
+Proof.
+  intros tbl [raw n v j d|raw] H; cbn [item_canon item_raw expected_cls] in *.
+  - destruct H as (-> & Hpre & Hj). unfold classify. rewrite (roundtrip _ _ _ _ Hpre).
+    unfold Attr. cbn [p_name p_value p_json p_descr].
+    destruct j as [[jt r]|]; cbn [option_map fst]; [|reflexivity].
+    destruct Hj as [-> Hr]. destruct r as [p|]; [|reflexivity].
+    unfold nul. replace (str_eqb p json_null) with false; [reflexivity|].
+    symmetry. apply str_eqb_neq. congruence.
+  - apply free_text_kept; exact H.
+Qed.
+
+Definition conv (a : attr str) : obs_attr :=
+  {| o_name := a_name a; o_value := a_value a; o_props := a_props a; o_descr := a_descr a |}.
+
+Lemma obs_attr_eqb_refl : forall a, obs_attr_eqb a a = true.
+Proof.
+  intros a. unfold obs_attr_eqb. rewrite !str_eqb_refl.
+  destruct (o_props a); cbn [opt_str_eqb]; [rewrite str_eqb_refl|]; reflexivity.
+Qed.
+
+Lemma list_eqb_refl : forall A (eqb : A -> A -> bool), (forall x, eqb x x = true) -> forall l, list_eqb eqb l l = true.
+Proof. intros A eqb H l. induction l as [|x l IH]; [reflexivity|]. cbn [list_eqb]. rewrite H, IH. reflexivity. Qed.
+
+Section Holds.
+  Variable tbl : list (str * option str).
+  Notation cls := (classify str (table_json5 tbl) nul).
+
+  Lemma no_malformed_cons : forall it items,
+    existsb item_malformed (it :: items) = false ->
+    item_malformed it = false /\ existsb item_malformed items = false.
+  Proof. intros it items H. cbn [existsb] in H. apply orb_false_iff in H. exact H. Qed.
+
+  Lemma attrs_expected : forall items,
+    Forall (item_canon tbl) items -> existsb item_malformed items = false ->
+    map conv (attrs_of str (table_json5 tbl) nul (map item_raw items)) = expected_attrs items.
+  Proof.
+    induction items as [|it items IH]; intros Hc Hm; [reflexivity|].
+    inversion Hc as [|? ? Hit Hrest]; subst. destruct (no_malformed_cons _ _ Hm) as [Hm1 Hm2].
+    unfold attrs_of, expected_attrs in *. cbn [map flat_map].
+    rewrite (classify_item tbl it Hit). rewrite map_app. rewrite (IH Hrest Hm2).
+    destruct it as [raw n v [[jt [p|]]|] d|raw]; cbn [expected_cls item_malformed] in *;
+      try discriminate; reflexivity.
+  Qed.
+
+  Lemma frees_expected : forall items i,
+    Forall (item_canon tbl) items -> existsb item_malformed items = false ->
+    map snd (frees_from str (table_json5 tbl) nul i (map item_raw items)) = expected_frees items.
+  Proof.
+    induction items as [|it items IH]; intros i Hc Hm; [reflexivity|].
+    inversion Hc as [|? ? Hit Hrest]; subst. destruct (no_malformed_cons _ _ Hm) as [Hm1 Hm2].
+    unfold expected_frees in *. cbn [map frees_from flat_map].
+    rewrite (classify_item tbl it Hit).
+    destruct it as [raw n v [[jt [p|]]|] d|raw]; cbn [expected_cls item_malformed] in *;
+      try discriminate; cbn [map app snd]; rewrite (IH (S i) Hrest Hm2); reflexivity.
+  Qed.
+
+  Lemma leading_expected : forall items,
+    Forall (item_canon tbl) items ->
+    leading_free_lines str (table_json5 tbl) nul (map item_raw items) = leading_free items.
+  Proof.
+    induction items as [|it items IH]; intros Hc; [reflexivity|].
+    inversion Hc as [|? ? Hit Hrest]; subst. cbn [map leading_free_lines leading_free].
+    rewrite (classify_item tbl it Hit).
+    destruct it as [raw n v [[jt [p|]]|] d|raw]; cbn [expected_cls]; try reflexivity.
+    rewrite (IH Hrest). reflexivity.
+  Qed.
+
+  Lemma find_description_expected : forall items,
+    Forall (item_canon tbl) items -> existsb item_malformed items = false ->
+    match find (fun a => str_eqb (a_name a) (s "Description"))
+               (attrs_of str (table_json5 tbl) nul (map item_raw items)) with
+    | Some a => Some (a_descr a)
+    | None => None
+    end = first_description items.
+  Proof.
+    induction items as [|it items IH]; intros Hc Hm; [reflexivity|].
+    inversion Hc as [|? ? Hit Hrest]; subst. destruct (no_malformed_cons _ _ Hm) as [Hm1 Hm2].
+    unfold attrs_of in *. cbn [map flat_map first_description].
+    rewrite (classify_item tbl it Hit).
+    destruct it as [raw n v [[jt [p|]]|] d|raw]; cbn [expected_cls item_malformed] in *;
+      try discriminate; cbn [app find a_name a_descr];
+      try (destruct (str_eqb n (s "Description")); [reflexivity|]); exact (IH Hrest Hm2).
+  Qed.
+
+  Lemma malformed_error : forall items,
+    Forall (item_canon tbl) items -> existsb item_malformed items = true ->
+    holder str (table_json5 tbl) nul (map item_raw items) = None.
+  Proof.
+    intros items Hc Hm. apply existsb_exists in Hm. destruct Hm as (it & Hin & Hit).
+    unfold holder. apply holder_from_error. exists (item_raw it). split; [apply in_map; exact Hin|].
+    rewrite Forall_forall in Hc. rewrite (classify_item tbl it (Hc it Hin)).
+    destruct it as [raw n v [[jt [p|]]|] d|raw]; cbn [item_malformed] in Hit; try discriminate. reflexivity.
+  Qed.
+
+  Lemma well_formed_no_error : forall items,
+    Forall (item_canon tbl) items -> existsb item_malformed items = false ->
+    exists h, holder str (table_json5 tbl) nul (map item_raw items) = Some h.
+  Proof.
+    intros items Hc Hm. destruct (holder str (table_json5 tbl) nul (map item_raw items)) as [h|] eqn:E; [eauto|].
+    exfalso. unfold holder in E. apply holder_from_error in E. destruct E as (raw & Hin & Hr).
+    apply in_map_iff in Hin. destruct Hin as (it & <- & Hin).
+    rewrite Forall_forall in Hc. rewrite (classify_item tbl it (Hc it Hin)) in Hr.
+    assert (Hit : item_malformed it = true).
+    { destruct it as [raw n v [[jt [p|]]|] d|raw]; cbn [expected_cls] in Hr; try discriminate. reflexivity. }
+    assert (X : existsb item_malformed items = true) by (apply existsb_exists; eauto). congruence.
+  Qed.
+
+  Theorem model_satisfies_prop : forall items,
+    Forall (item_canon tbl) items ->
+    prop_C16 items (model_obs tbl (map item_raw items)) = true.
+  Proof.
+    intros items Hc. unfold prop_C16, model_obs. fold nul.
+    destruct (existsb item_malformed items) eqn:Hm.
+    - rewrite (malformed_error items Hc Hm). reflexivity.
+    - destruct (well_formed_no_error items Hc Hm) as (h & Hh). rewrite Hh.
+      cbn [ob_err ob_attrs ob_frees ob_description negb andb].
+      destruct (holder_order str (table_json5 tbl) nul _ h Hh) as [Ha Hf].
+      rewrite (description_spec str (table_json5 tbl) nul _ h Hh).
+      rewrite Ha, Hf. fold conv. rewrite (attrs_expected items Hc Hm), (frees_expected items 0 Hc Hm).
+      rewrite (list_eqb_refl _ obs_attr_eqb obs_attr_eqb_refl), (list_eqb_refl _ str_eqb str_eqb_refl).
+      cbn [andb]. unfold expected_description.
+      pose proof (find_description_expected items Hc Hm) as Hd.
+      destruct (find _ _) as [a|]; rewrite <- Hd.
+      + apply str_eqb_refl.
+      + rewrite (leading_expected items Hc). apply str_eqb_refl.
+  Qed.
+End Holds.
+
+Definition demo_canon_items : list item :=
+  [ IFree (s "// lead");
+    IAnnot (s "// @Query(a, {name:""b""}) see {x})y") (s "Query") (s "a") (Some (s "{name:""b""}", Some (s "P"))) (s "see {x})y");
+    IFree (s "// @Name(");
+    IAnnot (s "// @Description the text") (s "Description") [] None (s "the text") ].
+
+Lemma demo_canon : Forall (item_canon [(s "{name:""b""}", Some (s "P"))]) demo_canon_items.
+Proof.
+  unfold demo_canon_items. repeat constructor; try (vm_compute; reflexivity); try discriminate.
+Qed.
+(* ---------------------------------------------------------------- completeness of the matcher:
+   every text of the form is accepted (with whatever groups leftmost-first picks), so the
+   deterministic scanner decides exactly the language of the regular expression *)
+
+Lemma span_app_all : forall p a b,
+  forallb p a = true -> span p (a ++ b) = (a ++ fst (span p b), snd (span p b)).
+Proof.
+  intros p a b. induction a as [|x a IH]; intros Ha.
+  - cbn [app]. destruct (span p b); reflexivity.
+  - cbn [forallb] in Ha. apply andb_true_iff in Ha as [Hx Ha].
+    cbn [app span]. rewrite Hx, (IH Ha). reflexivity.
+Qed.
+
+Lemma span_all : forall p a, forallb p a = true -> span p a = (a, []).
+Proof.
+  intros p a H. pose proof (span_stop p a [] H I) as E. rewrite app_nil_r in E. exact E.
+Qed.
+
+Lemma tail_complete : forall tl, shape_tail tl -> exists tl', tail (flat_tail tl) = Some tl'.
+Proof.
+  intros [|w d] H; [exists TailNone; reflexivity|].
+  destruct H as (Hw1 & Hw2 & Hd1 & Hd2). cbn [flat_tail]. unfold tail.
+  destruct (w ++ d) as [|c r] eqn:Ewd.
+  { apply app_eq_nil in Ewd. destruct Ewd; contradiction. }
+  rewrite <- Ewd. rewrite (span_app_all re_ws w d Hw2).
+  destruct (span re_ws d) as [k rest] eqn:Es. cbn [fst snd].
+  destruct (span_sound _ _ _ _ Es) as (Hd & Hk & _).
+  destruct (w ++ k) as [|b wk] eqn:Ewk.
+  { apply app_eq_nil in Ewk. destruct Ewk; contradiction. }
+  destruct rest as [|x rest].
+  - (* the description is all white space: .+ gets the last byte *)
+    rewrite app_nil_r in Hd. subst k.
+    destruct (last_split d Hd1) as (d' & y & ->).
+    rewrite <- Ewk. rewrite app_assoc, rev_app_distr. cbn [rev app].
+    destruct (rev (w ++ d')) as [|z zs] eqn:Er.
+    { apply (f_equal (@rev byte)) in Er. rewrite rev_involutive in Er. cbn [rev] in Er.
+      apply app_eq_nil in Er. destruct Er; contradiction. }
+    unfold no_lf in Hd2. rewrite forallb_app in Hd2. apply andb_true_iff in Hd2 as [_ Hy].
+    cbn [forallb] in Hy. rewrite andb_true_r in Hy. rewrite Hy. eexists; reflexivity.
+  - assert (Hn : no_lf (x :: rest) = true).
+    { unfold no_lf in *. rewrite Hd, forallb_app in Hd2. apply andb_true_iff in Hd2 as [_ H]. exact H. }
+    rewrite Hn. eexists; reflexivity.
+Qed.
+
+Lemma last_close_exists : forall inner r8 tl,
+  no_lf inner = true -> tail r8 = Some tl ->
+  exists i t, last_close (inner ++ c_rbrace :: c_rpar :: r8) = Some (i, t).
+Proof.
+  induction inner as [|c inner IH]; intros r8 tl Hlf Ht.
+  - cbn [app]. rewrite last_close_unfold. change (is_dot c_rbrace) with true. cbv iota.
+    destruct (last_close (c_rpar :: r8)) as [[i t]|]; [eexists _, _; reflexivity|].
+    change (beqb c_rbrace c_rbrace) with true. change (beqb c_rpar c_rpar) with true. cbv iota.
+    rewrite Ht. eexists _, _; reflexivity.
+  - unfold no_lf in Hlf. cbn [forallb] in Hlf. apply andb_true_iff in Hlf as [Hc Hlf].
+    destruct (IH r8 tl Hlf Ht) as (i & t & E).
+    cbn [app]. rewrite last_close_unfold, Hc, E. eexists _, _; reflexivity.
+Qed.
+
+Lemma span_valc_ws : forall w1 Y, forallb re_ws w1 = true ->
+  exists k w1', span is_valc (w1 ++ c_comma :: Y) = (k, w1' ++ c_comma :: Y) /\ forallb re_ws w1' = true.
+Proof.
+  induction w1 as [|c w IH]; intros Y Hw.
+  - exists [], []. split; reflexivity.
+  - cbn [forallb] in Hw. apply andb_true_iff in Hw as [Hc Hw].
+    cbn [app span]. destruct (is_valc c) eqn:Ev.
+    + destruct (IH Y Hw) as (k & w1' & E & Hw'). rewrite E. exists (c :: k), w1'. split; [reflexivity|exact Hw'].
+    + exists [], (c :: w). split; [reflexivity|]. cbn [forallb]. rewrite Hc, Hw. reflexivity.
+Qed.
+
+Theorem match_complete : forall t, attr_shaped t -> exists tr, match_text t = Some tr.
+Proof.
+  intros t ([n v jp tl] & -> & Hn & Hv & Htl & Hj). cbn [t_name t_value t_json t_tail] in *.
+  unfold wf_name in Hn. apply andb_true_iff in Hn as [Hne Hn].
+  destruct (tail_complete tl Htl) as (tl' & Ht).
+  unfold flatten. cbn [t_name t_value t_json t_tail]. unfold match_text.
+  change (strip_prefix (s "// @") (s "// @" ++ n ++ flat_paren v jp ++ flat_tail tl))
+    with (Some (n ++ flat_paren v jp ++ flat_tail tl)).
+  cbv iota.
+  destruct v as [|v0 v].
+  - cbn [flat_paren app].
+    destruct tl as [|w d].
+    + cbn [flat_tail]. rewrite app_nil_r. rewrite (span_all is_word n Hn).
+      destruct n; [discriminate|]. eexists; reflexivity.
+    + destruct Htl as (Hw1 & Hw2 & _). destruct w as [|b w]; [contradiction|].
+      cbn [forallb] in Hw2. apply andb_true_iff in Hw2 as [Hb Hw2].
+      cbn [flat_tail app] in *.
+      rewrite (span_stop is_word n (b :: w ++ d) Hn (re_ws_not_word b Hb)).
+      destruct n as [|n0 n]; [discriminate|].
+      rewrite (re_ws_not_lpar b Hb). rewrite Ht. eexists; reflexivity.
+  - cbn [flat_paren]. rewrite <- app_comm_cons.
+    rewrite (span_stop is_word n _ Hn) by reflexivity.
+    destruct n as [|n0 n]; [discriminate|].
+    change (beqb c_lpar c_lpar) with true. cbv iota.
+    rewrite <- !app_assoc.
+    destruct jp as [[[w1 w2] jt]|].
+    + destruct Hj as (_ & H1 & H2 & Hjt).
+      destruct (wf_json_split jt Hjt) as (inner & -> & Hlf).
+      cbn [flat_json].
+      replace ((v0 :: v) ++ (w1 ++ c_comma :: w2 ++ c_lbrace :: inner ++ [c_rbrace]) ++ [c_rpar] ++ flat_tail tl)
+        with ((v0 :: v) ++ (w1 ++ c_comma :: (w2 ++ c_lbrace :: inner ++ c_rbrace :: c_rpar :: flat_tail tl)))
+        by (norm_app; reflexivity).
+      rewrite (span_app_all is_valc (v0 :: v) _ Hv).
+      destruct (span_valc_ws w1 (w2 ++ c_lbrace :: inner ++ c_rbrace :: c_rpar :: flat_tail tl) H1)
+        as (k & w1' & Es & Hw1').
+      rewrite Es. cbn [fst snd app].
+      unfold try_json.
+      rewrite (span_stop re_ws w1' _ Hw1') by reflexivity.
+      change (beqb c_comma c_comma) with true. cbv iota.
+      rewrite (span_stop re_ws w2 _ H2) by reflexivity.
+      change (beqb c_lbrace c_lbrace) with true. cbv iota.
+      destruct (last_close_exists inner (flat_tail tl) tl' Hlf Ht) as (i & t & El).
+      rewrite El. eexists; reflexivity.
+    + cbn [flat_json app].
+      change (v0 :: v ++ c_rpar :: flat_tail tl) with ((v0 :: v) ++ c_rpar :: flat_tail tl).
+      rewrite (span_stop is_valc (v0 :: v) (c_rpar :: flat_tail tl) Hv) by reflexivity.
+      unfold try_json. cbn [span]. change (re_ws c_rpar) with false. cbv iota.
+      change (beqb c_rpar c_comma) with false. cbv iota.
+      change (beqb c_rpar c_rpar) with true. cbv iota.
+      rewrite Ht. eexists; reflexivity.
+Qed.
+
+(* the scanner accepts exactly the texts of the form *)
+Theorem match_iff_shaped : forall t, (exists tr, match_text t = Some tr) <-> attr_shaped t.
+Proof.
+  intros t. split.
+  - intros (tr & H). exact (match_text_shaped t tr H).
+  - apply match_complete.
+Qed.
